@@ -159,9 +159,10 @@ def isTrigger (c : Cfg) (s : State) (k : Nat) : Ev → Bool
 
 * `stop-instance` (`_stop_instance_resource`): `_delete_instance` (the entry is deleted WITHOUT `destroy()`,
   no timestamp update, no sweep) and `adapter.delete_instance` (the state file is removed); always 200.
-* `save-state`: `get_instance_states()` deep-copies every `session_state` and sets `["lock"]` — it raises
-  (HTTP 500, nothing written) when some instance has no session; otherwise every live instance is written
-  to the adapter.  No sweep, no timestamp update.
+* `save-state`: `get_instance_states()` leaves out the instances that have not begun a session (nothing to
+  externalise) and every live instance WITH a session is written to the adapter; always 200.  No sweep, no
+  timestamp update.  (Before the repair `fix: save-state skips instances that have not begun a session …`
+  one session-less instance made the request fail with nothing written.)
 * `load-state`: every stored instance is reconstructed with `time = now` and the stored timeout — an absent
   one is added (a restore), a LIVE one is overwritten in place (its old bptk object is dropped without
   `destroy()`).  No sweep.
@@ -182,9 +183,7 @@ def stopInst (s : State) (k : Nat) : State :=
            dropped := s.dropped ++ (s.insts.filter (fun i => i.id == k)).map (·.id) }
 
 def saveState (s : State) : State × Bool :=
-  if s.insts.all (·.sess) then
-    ({ s with stored := (s.insts.map (fun i => (i.id, i.timeout))).reverse ++ s.stored }, true)
-  else (s, false)
+  ({ s with stored := ((s.insts.filter (·.sess)).map (fun i => (i.id, i.timeout))).reverse ++ s.stored }, true)
 
 def replaceInst (n : Inst) (i : Inst) : Inst := if i.id = n.id then n else i
 
